@@ -25,9 +25,15 @@ THEOREMS = [
     "QExPy.C02_fallback_uncorrelated3",
 ]
 RULE = ("seeded formula DAGs over 1-3 measurements (all operators, shared sub-expressions), "
-        "sigma/|mu| in [1e-3, 0.5] or 0, correlation structure in {none, random PD, near-singular "
-        "PD, jointly non-PD, rho=+-1 for two sources}, sample size 7/100/2000 set globally or per "
-        "quantity; numpy.random.normal is recorded while the library runs and the recorded offset "
+        "sigma/|mu| in [1e-3, 0.5] or 0, and sources at exactly 0 +/- s or with sigma/|mu| up to 5, "
+        "correlation structure in {none, random PD, near-singular "
+        "PD, cancelling in sum, one pair of three, jointly non-PD, rho=+-1 for two sources}, sample size "
+        "7/100/2000 set globally or per quantity (also pinned to the value the global size has at "
+        "that moment); 40 % of the cases have a history before the judged read (range, size, "
+        "strategy, recalculate, method switch, global size; sources and correlations CHANGED and the "
+        "result recalculated under Monte Carlo or while switched to the derivative method -- the "
+        "judged read is then compared with the model on the current values and on draws recorded "
+        "after the recalculation); numpy.random.normal is recorded while the library runs and the recorded offset "
         "matrix is fed to the Lean pipeline (Cholesky, scale/shift, formula on every draw, discard "
         "non-finite, mean, n-1 standard deviation); mc.samples() compared element-wise and "
         "value/error compared under the FB running error bound; non-trivial = some non-zero "
@@ -140,17 +146,55 @@ def cancelling3(rng):
 
 
 PRE_KINDS = ["range", "range", "range-noread", "size", "size-reset", "mode", "custom", "conf",
-             "recalc", "method", "global-recalc", "read"]
+             "recalc", "method", "global-recalc", "read", "edit-recalc", "edit-recalc", "pin-global"]
 
 
-def gen_prelude(rng):
+def gen_edit(rng, n_meas, errs, raw):
+    """one change of a source measurement: [variable, field, number]"""
+    v = rng.randrange(n_meas)
+    if str(v) in raw:        # a repeated measurement: another statistic, or an explicit uncertainty
+        f = rng.choice(["use_std_for_uncertainty", "use_error_on_mean_for_uncertainty", "error"])
+        return [v, f, rng.choice([0.5, 0.75, 1.5, 2.0, 3.0])]
+    if errs[v] == 0:         # an exact source stays exact (its correlations are gated to 0)
+        return [v, "value", rng.choice([0.9, 0.95, 1.05, 1.1, 1.25])]
+    f = rng.choice(["value", "error", "error", "relerr", "both"])
+    if f == "relerr":
+        return [v, f, rng.choice([0.01, 0.03, 0.125, 0.3])]
+    return [v, f, rng.choice([0.5, 0.75, 0.9, 1.1, 1.5, 2.0, 3.0])]
+
+
+def gen_prelude(rng, case=None, force=None):
     """a short history on the result BEFORE the judged read; each one ends in the plain default
-    configuration C02 speaks about (mean-and-std strategy, no range, the configured size)"""
-    if rng.random() < 0.6:
+    configuration C02 speaks about (mean-and-std strategy, no range, the configured size).
+    `force` puts one step of that kind at a random position of a 1-3 step history."""
+    if force is None and rng.random() < 0.6:
         return []
     out = []
-    for _ in range(rng.choice([1, 1, 2, 3])):
-        k = rng.choice(PRE_KINDS)
+    steps = rng.choice([1, 1, 2, 3])
+    forced_at = rng.randrange(steps) if force else -1
+    for i in range(steps):
+        k = force if i == forced_at else rng.choice(PRE_KINDS)
+        if k in ("edit-recalc", "pin-global") and case is None:
+            k = "recalc"
+        if k == "edit-recalc":
+            # Monte Carlo read, [switch to the derivative method], change sources, recalculate(),
+            # [switch back]: the judged read must be a NEW simulation of the CURRENT normal model
+            errs = [unbits(b) for b in case["errs"]]
+            edits = [gen_edit(rng, case["n_meas"], errs, case.get("raw", {}))
+                     for _ in range(rng.choice([1, 1, 2]))]
+            if case.get("rho") and rng.random() < 0.5:
+                # the correlations between the sources change too: every one of them is set again,
+                # scaled by t in [0, 1] (t R + (1 - t) I stays positive definite when R is; a jointly
+                # non-positive-definite assignment may become positive definite -- the model decides)
+                edits.append([-1, "rho-scale", rng.choice([0.5, 0.25, 0.0, 0.75])])
+            how = rng.choice(["mc", "switch", "switch", "switch-other"])
+            out.append([k, how, edits, rng.random() < 0.5, rng.random() < 0.3])
+            continue
+        if k == "pin-global":
+            # the quantity is pinned to the size that is the global one at that moment, then the
+            # global size changes: the quantity keeps ITS size
+            out.append([k, rng.choice([6, 13, 40]), rng.random() < 0.6, rng.random() < 0.8])
+            continue
         if k in ("range", "range-noread"):
             a, b = sorted([rng.uniform(0.05, 0.95), rng.uniform(0.05, 0.95)])
             if rng.random() < 0.5:
@@ -190,9 +234,14 @@ def gen_overflow_case(rng, sizes):
             "pre": gen_prelude(rng)}
 
 
-def gen_case(rng, sizes, force_kind=None):
+SAFE_OPS = ["add", "sub", "mul", "neg", "exp", "sin", "cos", "atan"]     # defined everywhere
+
+
+def gen_case(rng, sizes, force_kind=None, force_pre=None):
     if force_kind == "overflow":
         return gen_overflow_case(rng, sizes)
+    if force_kind == "zerocentre":
+        return gen_zerocentre_case(rng, sizes, force_pre)
     need3 = force_kind in ("near", "nonpd", "partial", "zerosigma", "cancel")
     target = 3 if need3 else (2 if force_kind == "unit" else rng.choice([1, 2, 2, 3, 3, 3]))
     while True:
@@ -273,17 +322,90 @@ def gen_case(rng, sizes, force_kind=None):
     c["global"] = rng.choice([5, 11, 50]) if c["per"] else N
     c["method"] = rng.choice(["global", "value"])
     c["npseed"] = rng.randrange(2 ** 32)
-    c["pre"] = gen_prelude(rng)
+    if force_pre == "pin-global" and rng.random() < 0.5:
+        # the per-quantity size equals the global one from the start
+        c["per"] = c["global"] = N
+    c["pre"] = gen_prelude(rng, c, force=force_pre)
+    return c
+
+
+def gen_zerocentre_case(rng, sizes, force_pre=None):
+    """'all central values and uncertainties': a source at EXACTLY 0 with a positive uncertainty,
+    or with an uncertainty larger than its value (sigma/|mu| up to 5) -- formulas of operators that
+    are defined everywhere, so that every draw counts"""
+    while True:
+        c = exprgen.gen_case(rng, max_ops=4, max_meas=3, allow_pairs=False, allow_corr=False,
+                             ops=SAFE_OPS)
+        if c is not None:
+            break
+    for v in range(c["n_meas"]):
+        if v not in used_vars(c):
+            c["nodes"].append(["bin", rng.choice(["add", "sub", "mul"]), c["root"], v])
+            c["root"] = len(c["nodes"]) - 1
+    n = c["n_meas"]
+    vals = [unbits(b) for b in c["vals"]]
+    errs = []
+    z = rng.randrange(n)
+    for i in range(n):
+        if i == z or rng.random() < 0.3:
+            if rng.random() < 0.6:
+                vals[i] = rng.choice([0.0, 0.0, -0.0])
+                errs.append(rng.choice([0.5, 1.0, 0.1, round(rng.uniform(0.05, 2), 3)]))
+            else:
+                vals[i] = rng.choice([1, -1]) * 10 ** rng.uniform(-2, 0.3)
+                errs.append(abs(vals[i]) * rng.uniform(0.5, 5))
+        else:
+            errs.append(abs(vals[i]) * 10 ** rng.uniform(-3, math.log10(0.5)))
+    c["vals"] = [bits(v) for v in vals]
+    c["errs"] = [bits(e) for e in errs]
+    used = used_vars(c)
+    rho = []
+    if len(used) == 2 and rng.random() < 0.5:
+        rho = [[used[0], used[1], bits(rng.uniform(-0.9, 0.9))]]
+    elif len(used) == 3 and rng.random() < 0.5:
+        R = random_pd(rng, 3)
+        rho = [[used[i], used[j], bits(R[i][j])] for i in range(3) for j in range(i + 1, 3)]
+    c["rho"] = rho
+    c["kind"] = "zerocentre"
+    c["raw"], c["rawsel"] = {}, {}
+    N = rng.choice(sizes)
+    c["per"] = N if rng.random() < 0.5 else 0
+    c["global"] = rng.choice([5, 11, 50]) if c["per"] else N
+    c["method"] = rng.choice(["global", "value"])
+    c["npseed"] = rng.randrange(2 ** 32)
+    c["pre"] = gen_prelude(rng, c, force=force_pre)
     return c
 
 
 # ---------------------------------------------------------------------------------------------
 # running the library with recorded draws
 
-def run_prelude(q, r, case):
+def apply_edit(m, ed):
+    """change one source measurement (value, uncertainty, relative uncertainty, statistic in use)"""
+    _, field, x = ed
+    if field == "value":
+        m.value = float(m.value) * x
+    elif field == "error":
+        m.error = float(m.error) * x
+    elif field == "relerr":
+        m.relative_error = x
+    elif field == "both":
+        m.value = float(m.value) * (2.0 - x if x < 2 else 1.25)
+        m.error = float(m.error) * x
+    else:
+        getattr(m, field)()
+
+
+def run_prelude(q, r, case, meas=None, cap=None, wlist=None):
     """the history before the judged read; returns the (per-quantity, global) sample size that is
-    configured at the end.  Every variant ends with the mean-and-std strategy and no range."""
+    configured at the end, whether an empty simulation was met, and `due`: the number of recorded
+    draw calls at the last recalculate() that followed a change of a source (the stored simulation
+    must have been drawn after that point).  Every variant ends with the mean-and-std strategy and
+    no range."""
     per, glob = case["per"], case["global"]
+    due = 0
+    rho_now = [[i, j, unbits(b)] for i, j, b in case["rho"]]     # the correlations in force
+    wmark = [0]
     ev = r._DerivedValue__evaluators["monte-carlo"]
     empty = [False]
 
@@ -368,9 +490,58 @@ def run_prelude(q, r, case):
         elif k == "read":
             read()
             _ = r.mc.samples()
+        elif k == "edit-recalc":
+            _, how, edits, read_first, read_deriv = op
+            if read_first:
+                read()
+            else:
+                _ = r.mc.samples()
+            # "switch": the route that takes effect on r (its own setting if it has one, else the
+            # global one); "switch-other": the other route (r's own setting from then on, or a
+            # global switch that r, having its own Monte Carlo setting, does not follow)
+            own = case["method"] == "value"
+            via_own = (how == "switch") == own if how != "mc" else None
+            if how != "mc":
+                if via_own:
+                    r.error_method = q.ErrorMethod.DERIVATIVE
+                else:
+                    q.set_error_method(q.ErrorMethod.DERIVATIVE)
+            for ed in edits:
+                if ed[1] == "rho-scale":
+                    for ent in rho_now:
+                        if float(meas[ent[0]].error) == 0 or float(meas[ent[1]].error) == 0:
+                            continue      # an exact source takes no correlation (the library refuses)
+                        ent[2] = ent[2] * ed[2]
+                        q.set_correlation(meas[ent[0]], meas[ent[1]], ent[2])
+                else:
+                    apply_edit(meas[ed[0]], ed)
+            r.recalculate()
+            due = len(cap.calls) if cap is not None else 0
+            if any(ed[1] == "rho-scale" for ed in edits) and wlist is not None:
+                wmark[0] = len(wlist)     # warnings about the OLD correlation assignment do not count
+            if how != "mc":
+                if read_deriv:
+                    try:      # the derivative method refuses some inputs on purpose (see "method")
+                        read()
+                    except Exception:  # noqa: BLE001
+                        pass
+                if via_own:
+                    mc_on()
+                else:
+                    q.set_error_method(q.ErrorMethod.MONTE_CARLO)
+        elif k == "pin-global":
+            _, newglob, read_between, recalc = op
+            r.mc.sample_size = glob           # pinned to what happens to be the global size now
+            per = glob
+            if read_between:
+                read()
+            glob = newglob if newglob != glob else newglob + 1
+            q.set_monte_carlo_sample_size(glob)
+            if recalc:
+                r.recalculate()
         else:
             raise KeyError(k)
-    return per, glob, empty[0]
+    return per, glob, empty[0], due, rho_now, wmark[0]
 
 
 def observe(q, case):
@@ -405,8 +576,14 @@ def observe(q, case):
                 r.error_method = q.ErrorMethod.MONTE_CARLO
             if case["per"]:
                 r.mc.sample_size = case["per"]
-            per_now, glob_now, empty_seen = run_prelude(q, r, case)
-            out["per_final"], out["global_final"] = per_now, glob_now
+            per_now, glob_now, empty_seen, due, rho_now, wmark = run_prelude(q, r, case, meas, cap, w)
+            out["wmark"] = wmark
+            out["per_final"], out["global_final"], out["due"] = per_now, glob_now, due
+            out["rho_eff"] = rho_now
+            # the normal model the judged read is about: the CURRENT values and uncertainties
+            out["vals_eff"] = [float(m.value) for m in meas]
+            out["errs_eff"] = [float(m.error) for m in meas]
+            out["stds"] = [float(m.std) for m in meas]
             out["config"] = [r.mc.strategy, tuple(r.mc.xrange)]
             s = r.mc.samples()
             out["ncalls"] = len(cap.calls)
@@ -420,17 +597,19 @@ def observe(q, case):
             out["size_reported"] = int(r.mc.sample_size)
         except Exception as e:  # noqa: BLE001
             out["exception"] = "{}: {}".format(type(e).__name__, e)
-    out["warned"] = any(M.FALLBACK_TEXT in str(x.message) for x in w)
+    out["warned"] = any(M.FALLBACK_TEXT in str(x.message) for x in w[out.get("wmark", 0):])
     out["calls"] = cap.calls
     M.reset(q)
     return out
 
 
-def expected_R(case, order):
-    errs = [unbits(b) for b in case["errs"]]
+def expected_R(case, order, rho_eff=None, errs_eff=None):
+    # gated by the uncertainties in force (a history may have made a source exact: 0 +/- s with
+    # relative_error = r has uncertainty r*|0| = 0)
+    errs = list(errs_eff) if errs_eff is not None else [unbits(b) for b in case["errs"]]
     rho = {}
-    for i, j, r in case["rho"]:
-        rho[(i, j)] = rho[(j, i)] = unbits(r)
+    for i, j, r in (rho_eff if rho_eff is not None else [[i, j, unbits(b)] for i, j, b in case["rho"]]):
+        rho[(i, j)] = rho[(j, i)] = r
     R = []
     for i in order:
         row = []
@@ -498,13 +677,24 @@ def judge(case, o, m, failures, dist):
     k = len(order)
     batch = last_batch(o)
     # the correlation matrix the library builds is the gated matrix of what was set
-    if o["R"] != expected_R(case, order):
+    if o["R"] != expected_R(case, order, o.get("rho_eff"), o.get("errs_eff")):
         failures.append(dict(base, signature="c02:corr-matrix", what="get_correlation over the "
                              "sources is not the gated matrix of the correlations that were set",
-                             impl=o["R"], expected=expected_R(case, order), clause="correlations"))
+                             impl=o["R"], expected=expected_R(case, order, o.get("rho_eff"),
+                                                              o.get("errs_eff")),
+                             clause="correlations"))
         return True, False
     # draws: one standard-normal array per source, of the configured size
     want = m["size"]
+    if o.get("due") and o.get("ncalls", 0) - k < o["due"]:
+        failures.append(dict(base, signature="c02:no-redraw", what="a source measurement was changed "
+                             "and the result recalculated, but the Monte Carlo read that follows "
+                             "drew no new samples: it reports the simulation of the OLD values and "
+                             "uncertainties", impl="{} draw calls recorded, last recalculate() after "
+                             "{}".format(o.get("ncalls"), o["due"]),
+                             expected="{} new N(0,1) arrays after the recalculation".format(k),
+                             clause="moments of the formula under the CURRENT normal model"))
+        return True, False
     if len(batch) != k or any(tuple(a[:2]) != (0, 1) or len(arr) != want for a, arr in batch):
         failures.append(dict(base, signature="c02:sample-size", what="the simulation did not draw one "
                              "N(0,1) array of the configured sample size per source",
@@ -592,10 +782,11 @@ def ill_conditioned(o):
     return abs(M.min_eig(R)) < 1e-9
 
 
-def run(ctx, n_cases, sizes, ref=False, cases=None, force_kind=None):
+def run(ctx, n_cases, sizes, ref=False, cases=None, force_kind=None, force_pre=None):
     import qexpy as q
     if cases is None:
-        cases = [gen_case(ctx.rng, sizes, force_kind=force_kind) for _ in range(n_cases)]
+        cases = [gen_case(ctx.rng, sizes, force_kind=force_kind, force_pre=force_pre)
+                 for _ in range(n_cases)]
     obs = [observe(q, c) for c in cases]
     lines, idx = [], []
     for i, (c, o) in enumerate(zip(cases, obs)):
@@ -611,9 +802,22 @@ def run(ctx, n_cases, sizes, ref=False, cases=None, force_kind=None):
         dist["sources:{}".format(len(o.get("order", [])))] += 1
         dist["size:{}".format(c["per"] or c["global"])] += 1
         dist["size-per-quantity" if c["per"] else "size-global"] += 1
+        dist["monte-carlo-method-set-" + ("globally" if c["method"] == "global" else "on-the-result")] += 1
         dist["repeated-measurement-sources:{}".format(len(c.get("raw", {})))] += 1
         for op in c.get("pre", []):
             dist["history-before-read:" + op[0]] += 1
+            if op[0] == "edit-recalc":
+                dist["history-before-read:edit-recalc:" + {
+                    "mc": "under-monte-carlo", "switch": "while-switched-to-derivative",
+                    "switch-other": "other-switch-route"}[op[1]]] += 1
+                for ed in op[2]:
+                    dist["history-before-read:edit-recalc:" + (
+                        "correlations-rescaled" if ed[1] == "rho-scale" else "source-" + ed[1])] += 1
+            if op[0] == "pin-global":
+                dist["history-before-read:pin-global:" + (
+                    "recalculate" if op[3] else "no-recalculate")] += 1
+        if c["per"] and c["per"] == c["global"]:
+            dist["size-per-quantity-equal-to-global-at-start"] += 1
         dist["history-before-read:length-{}".format(len(c.get("pre", [])))] += 1
         for op in set(c["ops"]):
             dist["op:" + op] += 1
@@ -709,8 +913,11 @@ def correspond(ctx):
     # targeted: the fallback and the structures the quantifier names
     for kind, n in (("nonpd", ctx.n(30, 400)), ("unit", ctx.n(12, 150)), ("near", ctx.n(20, 300)),
                     ("zerosigma", ctx.n(20, 300)), ("overflow", ctx.n(12, 200)),
-                    ("cancel", ctx.n(30, 400)), ("partial", ctx.n(15, 200))):
-        r2 = run(ctx, n, sizes, force_kind=kind)
+                    ("cancel", ctx.n(30, 400)), ("partial", ctx.n(15, 200)),
+                    ("zerocentre", ctx.n(30, 400)),
+                    ("pre:edit-recalc", ctx.n(50, 600)), ("pre:pin-global", ctx.n(30, 400))):
+        r2 = run(ctx, n, sizes, **({"force_pre": kind[4:]} if kind.startswith("pre:") else
+                                    {"force_kind": kind}))
         res["evaluations"] += r2["evaluations"]
         res["nontrivial"] |= r2["nontrivial"]
         res["failures"] += r2["failures"]
@@ -809,6 +1016,10 @@ def _reference_once(case, o):
     if Z.shape[0] != k:
         return dict(base, signature="c02:sample-size", what="wrong number of draws")
     want = o.get("per_final", case["per"]) or o.get("global_final", case["global"])
+    if o.get("due") and o.get("ncalls", 0) - k < o["due"]:
+        return dict(base, signature="c02:no-redraw", what="sources changed and the result "
+                    "recalculated, but the following Monte Carlo read drew no new samples",
+                    impl=o.get("ncalls"), expected="draws after call {}".format(o["due"]))
     if k and Z.shape[1] != want:
         return dict(base, signature="c02:sample-size", what="the stored simulation has {} draws per "
                     "source, the configured sample size is {}".format(Z.shape[1], want),
@@ -816,7 +1027,14 @@ def _reference_once(case, o):
     if o.get("config") and o["config"] != ["monte-carlo-mean-and-std", ()]:
         return dict(base, signature="c02:config", what="not in the default configuration after the "
                     "history", impl=o["config"])
-    R = np.array(expected_R(case, order), dtype=float)
+    if o.get("size_reported") is not None and o["size_reported"] != want:
+        return dict(base, signature="c02:sample-size-reported", what="mc.sample_size is not the "
+                    "per-quantity size if set else the global one", impl=o["size_reported"],
+                    expected=want)
+    if len(o["samples"]) > want:
+        return dict(base, signature="c02:sample-size", what="more stored samples than the configured "
+                    "sample size", impl=len(o["samples"]), expected=want)
+    R = np.array(expected_R(case, order, o.get("rho_eff"), o.get("errs_eff")), dtype=float)
     np.fill_diagonal(R, 1.0)
     pd = True
     C = Z
@@ -870,9 +1088,11 @@ def search(ctx, broken):
     sizes = [7, 100]
     n = ctx.n(300, 3000)
     tried = 0
-    for kind in (None, "nonpd", "pd", "unit", "cancel", "partial"):
-        for _ in range(n // 6):
-            c = gen_case(ctx.rng, sizes, force_kind=kind)
+    for kind in (None, "nonpd", "pd", "unit", "cancel", "partial", "zerocentre", "pre:edit-recalc",
+                 "pre:pin-global"):
+        for _ in range(n // 9):
+            c = gen_case(ctx.rng, sizes, **({"force_pre": kind[4:]} if (kind or "").startswith("pre:")
+                                            else {"force_kind": kind}))
             o = observe(q, c)
             tried += 1
             f = reference_check(c, o)
